@@ -4,6 +4,10 @@
    SPEC column: a live position whose model move set is empty would contradict theorem C04_live_has_legal_move.
    CASE BOOK ; <size> ; <lines: x<hex>,... or -> ; <dump 0|1> ; <Int31 script v0,v1,... or -> ; <G|P position> ; ...
         | <OK | ERR kind lno x<hex word> | PANIC> <move>/<ok>/<next draw> ...      | n=<entries> <hash>@<position>@<move>*<weight>+.../...
+   CASE RAND ; <cfg: size depth evk nosort nonull noreduce multicut tablelen> ; <RandomizeWindow> ; <RandomizeScale> ; <Int63 stream v0,v1,...> ; <position>
+        | <move> | PANIC | ERR
+     model: SearchRand.get_move (coq/SearchRand.v: Analyze, then the randomised choice among the root moves; the stream holds the
+     successive values of ai.rand.Int63() for the configured seed) on a fresh engine.
      model: Opening.build_book (coq/Opening.v) on the raw line bytes, then OpeningBook.GetMove (G) / OpeningPlayer.GetMove with the
      harness's stub inner player (P) on every query in order, the draws chained through one scripted source; L2 = the whole book,
      entries sorted by hash, children in append order. *)
@@ -56,6 +60,20 @@ let book_case size lines flag vals qs =
       end in
     (l1, l2, None)
 
+let rand_case cfg rw rsc stream pos =
+  let b s = (s = "1") in
+  let (cfg, tlen) =
+    match words cfg with
+    | [_size; depth; evk; nosort; nonull; noreduce; multicut; tlen] ->
+      (SearchInst.mk_cfg (z_of_string depth) (b nosort) (b nonull) (b noreduce) (b multicut) (n_of_string evk), int_of_string tlen)
+    | _ -> failwith ("c04 rand cfg: " ^ cfg) in
+  let vs = if stream = "-" then [] else L.map n_of_string (S.split_on_char ',' stream) in
+  let p = parse_pos pos in
+  match SearchRandInst.run_get_move cfg (z_of_string rw) (z_of_string rsc) vs (Search.new_state (nat_of_int tlen)) p with
+  | Move.Ok ((_, m), _rest) -> (enc_move m, None, None)
+  | Move.Err -> ("ERR", None, None)
+  | Move.Panic -> ("PANIC", None, None)
+
 let run (_args : string list) =
   run_cases (fun fs ->
     match L.map S.trim (S.split_on_char ';' (L.hd fs)) with
@@ -73,4 +91,5 @@ let run (_args : string list) =
       ((match Inst.mv_fixed p m with Move.Ok _ -> "OK" | Move.Err -> "ERR" | Move.Panic -> "PANIC"), None, None)
     | "MCTS" :: rest -> Drv_c04m.handle rest
     | "BOOK" :: size :: lines :: flag :: vals :: qs -> book_case size lines flag vals qs
+    | ["RAND"; cfg; rw; rsc; stream; pos] -> rand_case cfg rw rsc stream pos
     | _ -> failwith "c04 input")
